@@ -18,7 +18,7 @@ LEVEL = 'exploration'
 CHUNK = 50
 RULE = ('R: relativity {default, -rel-home, -rel-act-home, -rel-act, -rel-tmp, -rel-result, -rel-cd, -rel-here, -rel SYM over every base} x suffix {x, d/x, @[S]@/x, x@[S]@, @[P]@/x, @[P]@, empty} x chain of '
         'path definitions of depth 0..2 (thorough 3) mixing -rel SYM and @[SYM]@/suffix x cd between definition and use x phase of use; D: 5 destination roles x {accepted option, default, forbidden '
-        'option, via symbol chain of depth 1..3 over every base relativity, absolute literal, absolute via string symbol}; S: 8 reading roles x every relativity option and the default; '
+        'option, via symbol chain of depth 1..3 over every base relativity, absolute literal, absolute via string symbol} + 5 instruction shapes using ONE symbol both for the file read and the file created; Rhere: -rel-here definitions in 3 files of 3 directories in every order / in the cases of a suite run; S: 8 reading roles x every relativity option and the default; '
         'non-trivial = the path is not given by a plain relative name with the default relativity')
 ASSUMPTIONS = [
     'root table and accepted-relativity tables transcribed from `help syntax PATH`, `help setup def`, and the help page of each instruction',
@@ -61,6 +61,14 @@ def cases(tier):
                 yield ('Rcd', base, derived, phase)
     for base in ROOTS:
         yield ('Rslash', base)
+    # -rel-here in several files of several directories (the root is the directory of the file the definition stands in)
+    for order in itertools.permutations(('main', 'sub', 'deep')):
+        for first in (None, 'tmp', 'here'):
+            for phase in ('setup', 'assert'):
+                yield ('Rhere', order, first, phase)
+    for first in (None, 'tmp', 'here'):
+        for dirs in (('a', 'b'), ('b', 'a'), ('a', 'a/n'), ('.', 'a')):
+            yield ('RhereSuite', first, dirs)
     # D
     for role in DEST_ROLES:
         for r in (None,) + ROOTS:
@@ -71,6 +79,12 @@ def cases(tier):
                     yield ('Dsym', role, base, depth, form)
         for how in ('literal', 'literal-with-option', 'string-symbol', 'string-symbol-with-option', 'string-symbol-lead'):
             yield ('Dabs', role, how)
+    # the same symbol in a reading role and in a creating role (restrictions belong to the reference, not to the name)
+    for shape in SAME_SHAPES:
+        for base in ROOTS + (None,):
+            for depth in (1, 2):
+                for form in ('rel', 'lead'):
+                    yield ('Dsame', shape, base, depth, form)
     # S
     for role in SRC_ROLES:
         for r in (None,) + ROOTS:
@@ -115,6 +129,12 @@ def run(case) -> Result:
         return _dsym(res, case, w, seam)
     if k == 'Dabs':
         return _dabs(res, case, w, seam)
+    if k == 'Dsame':
+        return _dsame(res, case, w, seam)
+    if k == 'Rhere':
+        return _rhere(res, case, w, seam)
+    if k == 'RhereSuite':
+        return _rhere_suite(res, case, w, seam)
     return _src(res, case, w, seam)
 
 
@@ -412,6 +432,143 @@ def _dabs(res, case, w, seam):
             res.kf[hit] += 1
         else:
             res.violation(case, errs, {'file': text})
+    return res
+
+
+# one instruction (or two consecutive ones) that uses the SAME path symbol for a file to read and for a file to create
+SAME_SHAPES = {
+    'copy': ['copy {SRC} {DST}'],
+    'file-contents-of': ['file {DST} = -contents-of {SRC}'],
+    'dir-with-file-contents-of': ['dir {DST} = { file inner.txt = -contents-of {SRC} }'],
+    'read-then-create': ['copy {SRC} -rel-tmp read-first.txt', "file {DST} = 'made'"],
+    'exists-then-create-in-cleanup': ['exists {SRC}', "[cleanup]", "file {DST} = 'made'"],
+}
+
+
+def _dsame(res, case, w, seam):
+    _, shape, base, depth, form = case
+    how = ('rel', 'lead')[:depth - 1]
+    defs, sfx, last = _chain_defs(base, how)
+    mk = (lambda n: '-rel %s %s' % (last, n)) if form == 'rel' else (lambda n: '@[%s]@/%s' % (last, n))
+    writable = base in (None,) + WRITABLE
+    pre = list(defs)
+    if writable:
+        pre.append("file %s = 'src'" % mk('a.txt'))
+    elif base in ('home', 'here'):
+        w.write(sfx + '/a.txt', 'src')
+    elif base == 'act-home':
+        w.write('ah/' + sfx + '/a.txt', 'src')
+    body = [l.replace('{SRC}', mk('a.txt')).replace('{DST}', mk('b-made')) for l in SAME_SHAPES[shape]]
+    lines = list(HEAD) + pre + ['run % first']
+    if '[cleanup]' in body:
+        i = body.index('[cleanup]')
+        lines += ['[act]', '% atc', '[assert]'] + body[:i] + body[i:]
+    else:
+        lines += body + ['[act]', '% atc']
+    text = '\n'.join(lines) + '\n'
+    snap = _home_snapshot(w)
+    o, sds, ident = _run_keep(text)
+    errs = []
+    if writable:
+        if ident != 'PASS' or not sds:
+            errs.append('%s with source and destination under the same symbol (relative to %s): accepted by documentation, got %s / %s' % (
+                shape, base or 'the default (cd)', ident, ' / '.join(cli.stderr_lines(o.err)[-3:])[:300]))
+        else:
+            want = root_dir(base or 'cd', sds, str(w.home), sds + '/act') + '/' + sfx + '/b-made'
+            if not os.path.lexists(want):
+                errs.append('%s: nothing at %s' % (shape, want.replace(sds, '<sds>')))
+    else:
+        if ident != 'VALIDATION_ERROR' or o.rc != 65:
+            errs.append('%s: the symbol %s (relative to %s through %d definitions) is used for the file to create as well as for the file to read: must be rejected before execution, got %s' % (
+                shape, last, base, depth, ident))
+        if seam.calls or sds:
+            errs.append('the case was executed (processes %s)' % [c['args'] for c in seam.calls][:2])
+    if _home_snapshot(w) != snap:
+        errs.append('home directory changed: %s' % sorted(set(_home_snapshot(w)) ^ set(snap))[:4])
+    res.outcomes[('Dsame', writable, ident)] += 1
+    res.nontrivial += 1
+    if errs:
+        res.violation(case, errs, {'file': text})
+    return res
+
+
+_HERE_DIR = {'main': '', 'sub': 'sub/', 'deep': 'sub/deeper/'}
+
+
+def _rhere(res, case, w, seam):
+    """`-rel-here` = the directory of the file in which the definition stands: three files in three directories, every order of the definitions,
+    optionally preceded by another path definition (so that the -rel-here ones are not the first the program parses)."""
+    _, order, first, phase = case
+    # main includes sub/defs.xly which includes deeper/more.xly; each file defines one symbol, before or after its inclusion
+    pos = {n: order.index(n) for n in order}
+    d = lambda n: 'def path H_%s = -rel-here data-%s' % (n, n)
+    deep = [d('deep')]
+    sub = ([d('sub')] if pos['sub'] < pos['deep'] else []) + ['including deeper/more.xly'] + ([d('sub')] if pos['sub'] > pos['deep'] else [])
+    before = pos['main'] < min(pos['sub'], pos['deep'])
+    main_defs = ([d('main')] if before else []) + ['including sub/defs.xly'] + ([] if before else [d('main')])
+    pre = []
+    if first == 'tmp':
+        pre = ['def path FIRST = -rel-tmp f']
+    elif first == 'here':
+        pre = ['including first/first.xly']
+        w.write('first/first.xly', 'def path FIRST = -rel-here f\n')
+    w.write('sub/defs.xly', '\n'.join(sub) + '\n')
+    w.write('sub/deeper/more.xly', '\n'.join(deep) + '\n')
+    use = ['run % probe @[H_main]@ @[H_sub]@ @[H_deep]@ "@[H_sub]@"']
+    if phase == 'setup':
+        lines = list(HEAD) + pre + main_defs + use + ['[act]', '% atc']
+    else:
+        lines = list(HEAD) + ['[act]', '% atc', '[assert]'] + pre + main_defs + use
+    text = '\n'.join(lines) + '\n'
+    o = cli.run_case(text)
+    errs = []
+    if o.ident != 'PASS':
+        errs.append('outcome %s / %s' % (o.ident, ' / '.join(cli.stderr_lines(o.err)[-3:])[:300]))
+    pc = [c for c in seam.calls if c['name'] == 'probe']
+    home = str(w.home)
+    want = [home + '/data-main', home + '/sub/data-sub', home + '/sub/deeper/data-deep', home + '/sub/data-sub']
+    if pc:
+        if pc[0]['args'][1:] != want:
+            errs.append('-rel-here definitions in c.case, sub/defs.xly, sub/deeper/more.xly (order %s, first definition parsed: %s) resolve to %s, expected %s' % (
+                order, first, [a.replace(home, '<home>') for a in pc[0]['args'][1:]], [a.replace(home, '<home>') for a in want]))
+    elif not errs:
+        errs.append('probe not run')
+    res.outcomes[('Rhere', o.ident)] += 1
+    res.nontrivial += 1
+    if errs:
+        res.violation(case, errs, {'file': text})
+    return res
+
+
+def _rhere_suite(res, case, w, seam):
+    """The same in a suite run in one process: cases in different directories each define a -rel-here path."""
+    _, first, dirs = case
+    names = []
+    for i, dname in enumerate(dirs):
+        lines = ['[setup]']
+        if i == 0 and first == 'tmp':
+            lines.append('def path FIRST = -rel-tmp f')
+        if i == 0 and first == 'here':
+            lines.append('def path FIRST = -rel-here f')
+        lines += ['def path X = -rel-here data.txt', 'run %% probe %d @[X]@' % i, '[act]', '% atc']
+        rel = ('' if dname == '.' else dname + '/') + 'k%d.case' % i
+        w.write(rel, '\n'.join(lines) + '\n')
+        names.append(rel)
+    sp = w.write('s.suite', '[cases]\n' + '\n'.join(names) + '\n')
+    o = cli.run(['suite', str(sp)])
+    errs = []
+    if o.rc != 0:
+        errs.append('suite run: exit %s / %s' % (o.rc, ' / '.join(cli.stderr_lines(o.out)[-4:])[:300]))
+    home = str(w.home)
+    got = {c['args'][1]: c['args'][2] for c in seam.calls if c['name'] == 'probe' and len(c['args']) > 2}
+    for i, dname in enumerate(dirs):
+        want = os.path.normpath(home + '/' + dname) + '/data.txt'
+        if got.get(str(i)) != want:
+            errs.append('case %d in directory %s: -rel-here data.txt resolves to %s, expected %s' % (i, dname, str(got.get(str(i))).replace(home, '<home>'), want.replace(home, '<home>')))
+    res.outcomes[('RhereSuite', o.rc)] += 1
+    res.nontrivial += 1
+    if errs:
+        res.violation(case, errs, {'suite': names})
     return res
 
 
